@@ -142,6 +142,16 @@ def replay(w):
         else:
             from moptipyapps.dynamic_control.controllers.ann import make_ann
             ctrl = make_ann(w["sd"], w["cd"], list(w["layers"]))
+        if kind == "ann":
+            # documented layout: every hidden neuron has a bias and one weight per input of its layer; every output has a multiplier,
+            # a bias and one weight per value of the last layer
+            prev, cnt = ctrl.state_dims, 0
+            for width in list(w["layers"]):
+                cnt += width * (prev + 1)
+                prev = width
+            cnt += ctrl.control_dims * (prev + 2)
+            if cnt != ctrl.param_dims:
+                return True, dict(param_dims=ctrl.param_dims, expected_param_dims=cnt)
         rnd = random.Random(7)
         worst = 0.0
         unchanged_all = True
